@@ -88,6 +88,9 @@ type c14case struct {
 // panicEntry: the event is started with Logger.Panic() (its level is then PanicLevel)
 func (c *c14case) panicEntry(ei int) bool { return c.levels[ei] == zerolog.PanicLevel && (c.salt/3+ei)%2 == 0 }
 
+// nested: the event carries nested dictionaries and an array of dictionaries
+func (c *c14case) nested(ei int) bool { return (c.salt/2+ei)%3 == 1 }
+
 // pad: some events are larger than the pooled 500-byte buffer, a few (bigPads) larger than 64 KiB
 func (c *c14case) pad(ei int) int {
 	switch (c.salt/4 + ei) % 5 {
@@ -171,6 +174,10 @@ func c14run(out *evid.Out, c *c14case) {
 		}
 	}
 	l := zerolog.New(root)
+	if c.salt%5 == 3 {
+		// the same destination given to a derived logger: Output changes nothing but where the events go
+		l = zerolog.New(io.Discard).Output(root)
+	}
 	if c.salt%4 == 1 {
 		l = l.Hook(zerolog.HookFunc(func(e *zerolog.Event, _ zerolog.Level, _ string) { e.Bool("hooked", true) }))
 	}
@@ -195,6 +202,10 @@ func c14run(out *evid.Out, c *c14case) {
 			} else {
 				e = l.WithLevel(c.levels[ei]).Int("i", ei)
 			}
+			if c.nested(ei) {
+				// events that need several pooled objects at once (what an earlier failed write must not have disturbed)
+				e = e.Dict("d", zerolog.Dict().Int("x", ei).Dict("in", zerolog.Dict().Bool("t", true))).Array("a", zerolog.Arr().Dict(zerolog.Dict().Int("y", ei)))
+			}
 			if n := c.pad(ei); n > 0 {
 				e = e.Str("pad", strings.Repeat("x", n))
 			}
@@ -213,31 +224,24 @@ func c14run(out *evid.Out, c *c14case) {
 			out.Violate("panic", fmt.Sprintf("logging call panicked: %v in %s", pan, c), rep)
 			return
 		}
-		lvlTxt := ""
+		var parts []string
 		if c.levels[ei] != zerolog.NoLevel {
-			lvlTxt = fmt.Sprintf(`"level":%q,`, c.levels[ei].String())
+			parts = append(parts, fmt.Sprintf(`"level":%q`, c.levels[ei].String()))
 		}
-		padTxt := ""
+		parts = append(parts, fmt.Sprintf(`"i":%d`, ei))
+		if c.nested(ei) {
+			parts = append(parts, fmt.Sprintf(`"d":{"x":%d,"in":{"t":true}},"a":[{"y":%d}]`, ei, ei))
+		}
 		if n := c.pad(ei); n > 0 {
-			padTxt = `"pad":"` + strings.Repeat("x", n) + `",`
+			parts = append(parts, `"pad":"`+strings.Repeat("x", n)+`"`)
 		}
-		hookTxt := ""
 		if c.salt%4 == 1 {
-			hookTxt = `"hooked":true,`
+			parts = append(parts, `"hooked":true`)
 		}
-		msgTxt := `"message":"m"`
-		if (c.salt+ei)%4 == 3 { // Send(): no message
-			msgTxt = ""
-			if hookTxt != "" {
-				hookTxt = hookTxt[:len(hookTxt)-1]
-			} else if padTxt != "" {
-				padTxt = padTxt[:len(padTxt)-1]
-			}
+		if (c.salt+ei)%4 != 3 { // Send(): no message
+			parts = append(parts, `"message":"m"`)
 		}
-		line := fmt.Sprintf(`{%s"i":%d,%s%s%s}`+"\n", lvlTxt, ei, padTxt, hookTxt, msgTxt)
-		if msgTxt == "" && padTxt == "" && hookTxt == "" {
-			line = fmt.Sprintf(`{%s"i":%d}`+"\n", lvlTxt, ei)
-		}
+		line := "{" + strings.Join(parts, ",") + "}\n"
 		wantBytes = append(wantBytes, line)
 		// expected error: first destination in order whose outcome != ok among those reached
 		var wantErr string
